@@ -7,4 +7,4 @@ Extraction Language OCaml.
 Extraction "extract/ModelLangC06R.ml"
   F64.of_bits StaticRules.check WfStatic.wf_static
   RulesWf.ids_consistent RulesWf.calls_lexical RulesWf.fids_unique RulesWf.params_in_range
-  RulesWf.idx_targets LexResolve.lexical.
+  RulesWf.idx_targets LexResolve.lexical LexResolve.nofn.
